@@ -195,6 +195,137 @@ def r_stiffness(idx, rep, rule="R-STIFFNESS"):
               % (u(target.value)[:100], ds[0], ds[1]), "exponents %s" % (ds[0],))
 
 
+def r_stiffness_chain(idx, rep, rule="R-STIFFNESS"):
+    """The same bookkeeping followed from find_contact_surface down to contact_plane with the exponents of the ACTUAL arguments (a potential
+    field carries 1/E_k, a modulus E_k, a pressure field E_k * potential nothing): whatever the intermediate parameters are called, the two
+    terms of the plane expression must come out with equal exponents.  Passing a field that is already a pressure together with the modulus
+    applies the stiffness twice (E^2): the plane moves towards the softer body, differently for (b1, b2) and (b2, b1)."""
+    from ..core.astutil import dot_args
+    from ..core.inline import bind_args
+    HYP = "distance3d.hydroelastic_contact."
+    rb = idx.cls(HYP + "_rigid_body::RigidBody")
+
+    def add(a, b, s=1):
+        return None if a is None or b is None else (a[0] + s * b[0], a[1] + s * b[1])
+
+    def attr_exp(attr, depth=0):
+        """exponent of the body's own modulus carried by RigidBody.<attr>"""
+        m = rb.methods.get(attr)
+        if m is not None and depth < 5 and any("property" in u(dec) for dec in m.node.decorator_list):
+            rets = [st for st in ast.walk(m.node) if isinstance(st, ast.Return) and st.value is not None]
+            if len(rets) == 1:
+                return self_exp(rets[0].value, depth + 1)
+            return None
+        if "modulus" in attr:
+            return 1
+        if "potential" in attr:
+            return -1
+        if "pressure" in attr:
+            return 0
+        return 0
+
+    def self_exp(e, depth):
+        if isinstance(e, ast.Constant):
+            return 0
+        if isinstance(e, ast.Attribute) and isinstance(e.value, ast.Name) and e.value.id == "self":
+            return attr_exp(e.attr, depth)
+        if isinstance(e, ast.Subscript):
+            return self_exp(e.value, depth)
+        if isinstance(e, ast.UnaryOp):
+            return self_exp(e.operand, depth)
+        if isinstance(e, ast.BinOp) and isinstance(e.op, (ast.Mult, ast.Div)):
+            a, b = self_exp(e.left, depth), self_exp(e.right, depth)
+            return None if a is None or b is None else (a + b if isinstance(e.op, ast.Mult) else a - b)
+        if isinstance(e, ast.BinOp) and isinstance(e.op, (ast.Add, ast.Sub)):
+            a, b = self_exp(e.left, depth), self_exp(e.right, depth)
+            return a if a == b else None
+        return None
+
+    def d(e, env, defs, depth=0):
+        if isinstance(e, ast.Constant):
+            return (0, 0)
+        if isinstance(e, ast.Name):
+            if e.id in env:
+                return env[e.id]
+            if e.id in defs and depth < 4:
+                return d(defs[e.id], env, defs, depth + 1)
+            return None
+        if isinstance(e, ast.Attribute) and isinstance(e.value, ast.Name) and e.value.id[-1:] in "12" and "body" in e.value.id:
+            x = attr_exp(e.attr)
+            return None if x is None else ((x, 0) if e.value.id[-1] == "1" else (0, x))
+        if isinstance(e, ast.Subscript):
+            return d(e.value, env, defs, depth)
+        if isinstance(e, ast.UnaryOp):
+            return d(e.operand, env, defs, depth)
+        if isinstance(e, ast.BinOp):
+            if isinstance(e.op, ast.Mult):
+                return add(d(e.left, env, defs, depth), d(e.right, env, defs, depth))
+            if isinstance(e.op, ast.Div):
+                return add(d(e.left, env, defs, depth), d(e.right, env, defs, depth), -1)
+            if isinstance(e.op, (ast.Add, ast.Sub)):
+                l, r = d(e.left, env, defs, depth), d(e.right, env, defs, depth)
+                return l if l == r else None
+            return None
+        if isinstance(e, ast.Call):
+            da = dot_args(e)
+            if da is not None:
+                return add(d(da[0], env, defs, depth), d(da[1], env, defs, depth))
+        return None
+
+    def defs_of(f):
+        out = {}
+        for st in ast.walk(f.node):
+            if isinstance(st, ast.Assign) and len(st.targets) == 1 and isinstance(st.targets[0], ast.Name):
+                out.setdefault(st.targets[0].id, st.value)
+        return out
+    chain = [(HYP + "_interface::find_contact_surface", "intersect_tetrahedron_pairs"),
+             (HYP + "_tetrahedron_intersection::intersect_tetrahedron_pairs", "intersect_tetrahedron_pair"),
+             (HYP + "_tetrahedron_intersection::intersect_tetrahedron_pair", "contact_plane")]
+    env = {}
+    for fkey, callee_name in chain:
+        f = idx.func(fkey)
+        cs = [c for c in ast.walk(f.node) if isinstance(c, ast.Call) and (call_name(c) or "").split(".")[-1] == callee_name]
+        if len(cs) != 1:
+            raise AnalysisError("%s: expected one call of %s, found %d" % (fkey, callee_name, len(cs)))
+        callee = idx.resolve_call(f.module, cs[0], None)
+        if callee is None:
+            raise AnalysisError("%s: callee %s not resolved" % (fkey, callee_name))
+        b = bind_args(callee.node, cs[0])
+        if b is None:
+            raise AnalysisError("%s: call of %s is not a plain call" % (fkey, callee_name))
+        df = defs_of(f)
+        env = {p_: d(a, env, df) for p_, a in b.items()}
+        for p_ in env:
+            if env[p_] is None and p_.startswith("X"):
+                env[p_] = (0, 0)          # barycentric transforms are dimensionless
+    cp = idx.func(HYP + "_tetrahedron_intersection::contact_plane")
+    df = defs_of(cp)
+
+    def terms(e):
+        if isinstance(e, ast.BinOp) and isinstance(e.op, (ast.Add, ast.Sub)):
+            return terms(e.left) + terms(e.right)
+        return [e]
+    target = None
+    for st in cp.node.body:
+        if isinstance(st, ast.Assign) and isinstance(st.value, ast.BinOp) and isinstance(st.value.op, (ast.Sub, ast.Add)) and len(terms(st.value)) == 2 \
+                and any(isinstance(n, ast.Name) and n.id.startswith("X") for n in ast.walk(st.value)):
+            target = st
+            break
+    if target is None:
+        raise AnalysisError("contact_plane: plane expression (difference of the two weighted fields) not found")
+    f0 = idx.func(chain[0][0])
+    key = f0.key + "|the two pressure fields reach contact_plane in the same units"
+    ds = [d(t, env, df) for t in terms(target.value)]
+    if any(x is None for x in ds):
+        rep.unknown(rule, key, f0.where, "exponents of the actual arguments not inferred (%s)" % {k: v for k, v in env.items() if "epsilon" in k or "modulus" in k})
+        return
+    rep.check(ds[0] == ds[1] == (0, 0), rule, key, f0.where,
+              "followed from find_contact_surface, the arguments of contact_plane carry the Young's-modulus exponents %s, so the two terms of `%s` come out as (E1, E2)^%s and ^%s "
+              "instead of two pressures (0, 0): a field that already contains the stiffness is multiplied by the modulus again (or a modulus is missing), the contact surface is "
+              "where E1^2 e1 = E2^2 e2 and swapping the bodies changes it" % ({k: v for k, v in sorted(env.items()) if "epsilon" in k or "modulus" in k}, u(target.value)[:80], ds[0], ds[1]),
+              "both terms are pressures")
+
+
 def r_hplayout(idx, rep, rule="R-HPLAYOUT"):
     """a half-plane is the row (px, py, dx, dy): point = [:2], direction = [2:]; a slice that cuts a pair in half ([:1], [1:3], [3:]) reads half a vector"""
     rep.rule(rule, "half-plane rows (px, py, dx, dy) are only sliced at the pair boundaries 0 / 2 / 4 (or indexed by single components)", floor=2)
